@@ -42,6 +42,31 @@ Definition class_producer (c : failure_class) : producer :=
   | BadPragma | SeveralMains | InvalidTupleOrAnonymous | DuplicateDefinition => ByOtherStage
   end.
 
+(* the form in which [failure_event] (below) states the report of a class: what
+   Model.Front makes of an OS / parse / include error of Model.Includes, the
+   `Err` of a definition of a named file, a member of [others] without primary
+   label / with a primary label in a named file
+   (Proofs.NoSilentProofs.failure_event_shape).  The class-table check of
+   lib/props/C02.py reads [class_table] through the extracted driver
+   (`model_front classes`) and looks for a report of that form in the ground
+   truth of every unconditional injection. *)
+Inductive report_shape :=
+| ShOsError | ShParseError | ShIncludeError | ShLiftError | ShOtherUnlabelled | ShOtherInNamedFile.
+Definition class_shape (c : failure_class) : report_shape :=
+  match c with
+  | MissingFile | UnreadableFile => ShOsError
+  | SyntaxError => ShParseError
+  | UnresolvedInclude => ShIncludeError
+  | DuplicateParameter | LiftFailure => ShLiftError
+  | BadPragma | SeveralMains => ShOtherUnlabelled
+  | InvalidTupleOrAnonymous | DuplicateDefinition => ShOtherInNamedFile
+  end.
+Definition all_classes : list failure_class :=
+  [ MissingFile; UnreadableFile; SyntaxError; UnresolvedInclude; DuplicateParameter; LiftFailure;
+    BadPragma; SeveralMains; InvalidTupleOrAnonymous; DuplicateDefinition ].
+Definition class_table : list (failure_class * producer * report_shape) :=
+  map (fun c => (c, class_producer c, class_shape c)) all_classes.
+
 Section NoSilentSpec.
   Context {path : Type}.
   Variable canon : path -> option path.
